@@ -368,7 +368,7 @@ def run_script(exe, lines, model_pre=(), tmpdir=None, real_env=None):
 
 
 REAL_ONLY = {"sys.info", "codec.sweep32", "crc.cpu", "cz.raw", "cz.direct", "cz.libinfo", "cz.gen", "cz.big", "mt.run", "crc.big"}
-MODEL_ONLY = {"enc.raw", "enc.legal", "enc.file", "ctab", "cz.plan", "f.validate"}
+MODEL_ONLY = {"enc.raw", "enc.legal", "enc.file", "ctab", "cz.plan", "f.validate", "tp.enum"}
 
 
 def subst(t, var):
